@@ -782,6 +782,20 @@ Proof.
   eapply srel_trans; [|apply srel_finish_create]. srel_ns.
 Qed.
 
+Lemma srel_do_sendoffer xs h c x s i stream : srel xs h (fst (do_sendoffer h c x s i stream)).
+Proof.
+  unfold do_sendoffer.
+  destruct i as [n|n|k|n]; try (destruct (negb (send_allowed (s_perms s) stream)); apply srel_refl).
+  destruct (get_sess h n) as [t|] eqn:Ht; [|destruct (negb (send_allowed (s_perms s) stream)); apply srel_refl].
+  destruct (negb (N.eqb (s_backend t) (s_backend s))); [apply srel_refl|].
+  destruct (N.eqb n x); [apply srel_refl|].
+  destruct (negb (send_allowed (s_perms s) stream)); [apply srel_refl|].
+  cbv zeta. set (r := match s_kind t with KVirtual p _ => p | _ => n end).
+  destruct (get_sess h r) as [rs|] eqn:Hr; [|apply srel_refl].
+  destruct (is_virtual (s_kind rs)) eqn:Hv; [apply srel_refl|].
+  destruct (sub_get rs x stream); [apply srel_send_session|apply srel_start_create].
+Qed.
+
 Lemma srel_do_media xs h c sid s to mk stream media :
   get_sess h sid = Some s -> srel xs h (fst (do_media h c sid s to mk stream media)).
 Proof.
@@ -794,7 +808,7 @@ Proof.
     + match goal with |- context [if ?c then _ else _] => destruct c end; [apply srel_refl|].
       destruct (negb (same_call h sid s _)); [apply srel_refl|].
       destruct (sub_get s _ stream); [apply srel_send_session|apply srel_start_create].
-    + destruct (N.eqb mk 2); [|apply srel_refl].
+    + destruct (is_cand mk); [|destruct (N.eqb mk 3); [apply srel_do_sendoffer|apply srel_refl]].
       match goal with |- context [if ?c then _ else _] => destruct c end.
       * destruct (negb (send_allowed (s_perms s) stream)); [apply srel_refl|]. destruct (aget (s_pubs s) stream); apply srel_refl.
       * destruct (sub_get s _ stream); apply srel_refl.
